@@ -61,9 +61,14 @@ pub fn rip_bin() -> &'static Path {
 pub struct CliCase {
     /// seq plan of the frames (class only; the seqs are already in the frames)
     pub seq_mode: String,
+    /// frame generator: "all_kinds" (the fold generator) or "renderer_kinds" (class only)
+    #[serde(default)]
+    pub gen: String,
     /// how the sequence was made finite: "frame_last" (a session_ended frame appended, earlier
-    /// ones removed), "close" (no session_ended frame at all: the server ends the body),
-    /// "as_generated" (session_ended wherever the frame generator put it, possibly nowhere)
+    /// ones removed), "frame_mid" (one session_ended frame at a generated position: the frames
+    /// after it are served but must be ignored), "close" (no session_ended frame at all: the
+    /// server ends the body), "as_generated" (session_ended wherever the frame generator put it,
+    /// possibly several, possibly nowhere)
     pub end: String,
     /// the frames served, in order, as wire objects
     pub frames: Vec<Value>,
@@ -97,12 +102,71 @@ pub fn strategy() -> BoxedStrategy<CliCase> {
         1 => proptest::sample::subsequence(VIEWS.to_vec(), 1..=3)
             .prop_map(|v| v.into_iter().map(|s| s.to_string()).collect::<Vec<String>>()),
     ];
+    // "focus" cases: the kinds the output / metrics renderers actually fold (tool output, tool
+    // failures, provider events, request timing frames, few text deltas) so that the fallback
+    // summary and the metrics breakdown are dense instead of 1-in-40 accidents; the frames keep
+    // the seq plan of the base case
+    let focus_weights: [(&str, u32); 12] = [
+        ("output_text_delta", 1),
+        ("tool_stdout", 3),
+        ("tool_stderr", 3),
+        ("tool_failed", 3),
+        ("provider_event", 3),
+        ("tool_started", 1),
+        ("tool_ended", 1),
+        ("session_started", 1),
+        ("openresponses_request_started", 2),
+        ("openresponses_response_headers", 2),
+        ("openresponses_response_first_byte", 1),
+        ("openresponses_request", 1),
+    ];
+    let specs = kinds();
+    let focus_frame = proptest::strategy::Union::new_weighted(
+        focus_weights
+            .iter()
+            .map(|(tag, w)| {
+                let k = specs.iter().find(|k| k.tag == *tag).expect("focus kind");
+                // long chunks (around 4 KiB / 8 KiB, multi-byte units) in 1 of 6 chunk fields
+                (*w, wire_frame_of(k, FrameOpts { big_chunks: true, ..fo }))
+            })
+            .collect::<Vec<_>>(),
+    )
+    .prop_flat_map(|f| {
+        (Just(f), prop_oneof![4 => Just(1usize), 2 => 2usize..6, 1 => 6usize..24])
+    })
+    .prop_map(|(mut f, times)| {
+        // the metrics view only looks at request_index 0
+        if let Some(ri) = f.get("request_index").and_then(|v| v.as_u64()) {
+            f["request_index"] = Value::from(ri % 2);
+        }
+        // medium-sized texts (the field generator gives <= 40 chars or ~4/8 KiB): repeat the
+        // text so that accumulated previews cross 256 B / 1 KiB / 4 KiB marks at arbitrary
+        // offsets inside multi-byte characters
+        for key in ["chunk", "delta", "error"] {
+            if let Some(t) = f.get(key).and_then(|v| v.as_str()) {
+                if times > 1 && t.len() < 1024 {
+                    f[key] = Value::String(t.repeat(times));
+                }
+            }
+        }
+        f
+    });
+    let focus = prop_oneof![
+        3 => Just(None),
+        2 => proptest::collection::vec(focus_frame, 0..60).prop_map(Some),
+    ];
     (
         // the existing C20 generator: all frame types, seq plans, streams mixed, multi-byte text;
         // one case in five with long chunks around 4 KiB / 8 KiB
         prop_oneof![4 => case_strategy(60, false), 1 => case_strategy(120, true)],
-        prop_oneof![3 => Just("frame_last"), 3 => Just("close"), 2 => Just("as_generated")],
-        end_frame,
+        focus,
+        prop_oneof![
+            3 => Just("frame_last"),
+            3 => Just("close"),
+            2 => Just("frame_mid"),
+            1 => Just("as_generated"),
+        ],
+        (end_frame, any::<u16>()),
         prop_oneof![
             1 => Just(Vec::<u16>::new()),
             3 => proptest::collection::vec(any::<u16>(), 1..6),
@@ -110,7 +174,7 @@ pub fn strategy() -> BoxedStrategy<CliCase> {
         ],
         views,
     )
-        .prop_map(|(base, end, end_frame, cuts, views)| {
+        .prop_map(|(base, focus, end, (end_frame, end_pos), cuts, views)| {
             let mut frames: Vec<Value> = base
                 .steps
                 .into_iter()
@@ -119,16 +183,34 @@ pub fn strategy() -> BoxedStrategy<CliCase> {
                     _ => None,
                 })
                 .collect();
+            let mut gen = "all_kinds";
+            if let Some(focus) = focus {
+                gen = "renderer_kinds";
+                frames = frames
+                    .into_iter()
+                    .zip(focus)
+                    .map(|(b, mut f)| {
+                        f["seq"] = b["seq"].clone();
+                        f
+                    })
+                    .collect();
+            }
             match end {
                 "frame_last" => {
                     frames.retain(|f| !is_end(f));
                     frames.push(end_frame);
+                }
+                "frame_mid" => {
+                    frames.retain(|f| !is_end(f));
+                    let at = rv::engine::pick(end_pos, frames.len() + 1);
+                    frames.insert(at, end_frame);
                 }
                 "close" => frames.retain(|f| !is_end(f)),
                 _ => {}
             }
             CliCase {
                 seq_mode: base.seq_mode,
+                gen: gen.to_string(),
                 end: end.to_string(),
                 frames,
                 cuts,
@@ -461,6 +543,7 @@ pub fn run(case: &CliCase) -> CaseReport {
     let ended_by_frame = stop_at.is_some();
 
     rep.class(format!("seq:{}", case.seq_mode));
+    rep.class(format!("gen:{}", case.gen));
     rep.class(match stop_at {
         Some(i) if i + 1 == case.frames.len() => "end:by_frame_last",
         Some(_) => "end:by_frame_mid",
@@ -543,7 +626,7 @@ pub fn run(case: &CliCase) -> CaseReport {
         let ok_a = judge_exit(view, &a, "per_frame_chunks", &mut rep);
         let ok_b = ok_a && judge_exit(view, &b, "generated_partition", &mut rep);
         if !(ok_a && ok_b) {
-            continue;
+            return rep; // first failure decides the case (keeps shrinking affordable)
         }
 
         // ---- (2) same frames => same output (also across transport chunkings)
@@ -564,7 +647,7 @@ pub fn run(case: &CliCase) -> CaseReport {
                 json!({"first": clip(&a.stdout, 600), "second": clip(&b.stdout, 600),
                        "first_len": a.stdout.len(), "second_len": b.stdout.len()}),
             );
-            continue;
+            return rep;
         }
 
         // ---- (4) bounded output
@@ -580,6 +663,9 @@ pub fn run(case: &CliCase) -> CaseReport {
             "raw" => judge_raw(&a.stdout, &texts[..consumed], &mut rep),
             "output" => judge_output(&a.stdout, &case.frames[..consumed], ended_by_frame, &mut rep),
             _ => judge_metrics(&a.stdout, stop_at.map(|i| &case.frames[i]), &mut rep),
+        }
+        if !rep.ok() {
+            return rep;
         }
     }
     rep
@@ -722,6 +808,7 @@ fn judge_metrics(stdout: &[u8], end: Option<&Value>, rep: &mut CaseReport) {
         );
         return;
     };
+    rep.class_if(obj.get("openresponses").map(|v| !v.is_null()).unwrap_or(false), "metrics:openresponses_breakdown");
     // the CLI stops at the first session_ended, so the summary describes that frame
     if obj.get("session_end_reason") != end.get("reason") || obj.get("session_ended_ms") != end.get("timestamp_ms") {
         rep.fail(
